@@ -68,6 +68,23 @@ CLAIMED = {
             "requires unchanged path lengths at return/raise, identical deep digests of all objects and caller arrays, and identical behaviour when called again.",
             "Trusted: TLC, hooks commit in /repo (guarded by MAGPYLIB_VERIF), digest covers private attributes, style values, caller arrays as bytes.",
             "DESIGN.md section 5 C08"),
+    "C07": ("model_checking",
+            "TLC-enumerated ways of giving every functional-interface parameter (MC_Functional) + TLC validation of every real call against the documented tiling rule and row-wise against the object-oriented interface; call forms against the canonical tensor (TV_Functional)",
+            "TLC enumerates for all 10 classes every combination of 'one parameter set / n sets' (n <= 3-4, deliberately colliding with vector and vertex-count lengths) for every "
+            "parameter incl. observers, position, orientation, and checks the documented tiling rule on the model. Each of the ~12.5k combinations is executed through "
+            "getB/H/J/M('Class', ...); TLC decides from the rule whether the call must succeed and with how many instances and compares every row with the object-oriented "
+            "single-instance call; one configuration is also evaluated through top-level, source-method, sensor-method, three collection forms, sumup, squeeze and dataframe "
+            "(incl. documented row order) and magpylib.core, each compared with the canonical tensor.",
+            "Trusted: TLC, Json, quantization to 1e-12 of the gross scale (two limbs); tolerances 1e-8 (re-derived inputs) / 1e-12 (same computation). Parameter values are seeded random.",
+            "DESIGN.md section 5 C07"),
+    "C17": ("model_checking",
+            "documented format table as a total decision function in TLA+ (Inputs.tla), checked total/deterministic by TLC over the value grammar; every (class, attribute, value descriptor) executed through constructor and setter and judged by TLC (TV_Inputs)",
+            "TLC enumerates 13 classes x their public attributes x a grammar of value descriptors (scalars, arrays of rank 0-4 with small extents and entry classes, None, strings, "
+            "rotations, callables, geometric predicates) and checks that the documented decision is total and deterministic and that a rejected assignment leaves the slot unchanged. "
+            "Every triple is realised with concrete values through constructor and setter; TLC judges outcome class, unchanged-on-reject, stored shape/dtype, read-back equality, "
+            "no aliasing with the caller's array, constructor/setter agreement and that a later getB raises no internal error.",
+            "Trusted: TLC, the Python abstraction describe() of concrete values (cross-checked), the transcription of the docstrings into the table (rows where the docs are silent are tagged '-' and never alarm).",
+            "DESIGN.md section 5 C17"),
 }
 NOT_YET = "check not built yet (work in progress)"
 NA = {}
